@@ -164,7 +164,7 @@ def _proposal(pm, descr, which, assoc_sel):
     d = pm.descriptions.handle.get_one(descr)
     st = pm.data_model.get_state_class_for_descriptor(d)(d)
     st.Handle = (descr, 'cs0', 'cs1', 'nope')[which] if descr == 'lc0' else (descr, 'os0', 'os0', 'nope')[which]
-    st.ContextAssociation = pick(assoc_sel, (CA.ASSOCIATED, CA.DISASSOCIATED))
+    st.ContextAssociation = pick(assoc_sel, (CA.ASSOCIATED, CA.DISASSOCIATED, CA.NO_ASSOCIATION, CA.PRE_ASSOCIATION))
     return st
 
 
@@ -173,7 +173,7 @@ def set_context_state_step(mv: int, a0: int, a1: int, hu0: bool, u0: int, hu1: b
     """
     The tutorial's SetContextState handler with n in {1, 2} proposed states: proposal i targets descriptor lc0 (d2 == 0) or
     the other descriptor pc0 (d2 == 1, second proposal only), is new / update of cs0 / update of cs1 / unknown handle (w),
-    proposes ASSOCIATED or DISASSOCIATED (p).
+    proposes ASSOCIATED, DISASSOCIATED, NO_ASSOCIATION (= attribute absent) or PRE_ASSOCIATION (p).
     pre: mv >= 0
     pre: 0 <= a0 < 4
     pre: 0 <= a1 < 4
@@ -182,10 +182,10 @@ def set_context_state_step(mv: int, a0: int, a1: int, hu0: bool, u0: int, hu1: b
     pre: sv >= 0
     pre: 1 <= n <= 2
     pre: 0 <= w1 < 4
-    pre: 0 <= p1 < 2
+    pre: 0 <= p1 < 4
     pre: 0 <= d2 < 2
     pre: 0 <= w2 < 4
-    pre: 0 <= p2 < 2
+    pre: 0 <= p2 < 4
     post: __return__ == 'ok'
     """
     orc = Oracle()
